@@ -129,6 +129,21 @@ def access_checks(system, ids, listed):
             ok = ok and got == ids[sl]
         except Exception:
             ok = False
+    # a suspended iteration must not depend on other reads made in the meantime
+    try:
+        it = iter(system)
+        got = []
+        for k in range(n):
+            got.append([a.atomid for a in next(it)])
+            if n:
+                system[-1]
+                system[k // 2]
+                if k % 2:
+                    for _m in system:
+                        break
+        ok = ok and got == ids
+    except Exception:
+        ok = False
     r['slices'] = ok
     return r
 
